@@ -30,7 +30,7 @@ GATES = ["events_checked", "mode0", "mode1", "mode2", "handler_calls_checked", "
 def make_frames(rng, n):
     out = []
     for _ in range(n):
-        kind = rng.choice(("defined", "defined", "defined", "unknown", "len2", "len255", "defmax"))
+        kind = rng.choice(("defined", "defined", "defined", "unknown", "len2", "len255", "defmax", "steered", "steered"))
         if kind == "len2":
             p = streams.rand_unknown_payload(rng, 2)
             fr = refcrc.frame(p)
